@@ -34,7 +34,7 @@ LOOM_NAMES = ["node1", "node10", "node2", "node2.cluster", "a", "B", "b", "zz.0"
 def gen_world(r, res=None, small=False):
     nl = r.choice([1, 1, 2, 2, 3]) if not small else 1
     names = r.sample(LOOM_NAMES, nl)
-    rank_mode = r.choice(["none", "none", "all", "all", "some-looms"])
+    rank_mode = r.choice(["none", "none", "all", "all", "some-looms", "ties"])
     if nl == 1 and rank_mode == "some-looms":
         rank_mode = "all"
     looms = []
@@ -55,7 +55,14 @@ def gen_world(r, res=None, small=False):
             procs.append({"pid": pid, "appid": r.choice([1, 1, 2, 3, 7]), "rank": None, "nranks": None, "tids": tids})
             nprocs_total += 1
         looms.append({"name": name, "cpus": cpus, "procs": procs})
-    if rank_mode != "none":
+    if rank_mode == "ties":
+        # equal ranks in different processes / looms: the stable sorts then fall
+        # back on insertion order, i.e. on the relpath order of trace_load
+        for l in looms:
+            for p in l["procs"]:
+                p["rank"] = r.choice([0, 0, 1])
+                p["nranks"] = 2
+    elif rank_mode != "none":
         ranks = list(range(nprocs_total + r.choice([0, 0, 3])))
         r.shuffle(ranks)
         for li, l in enumerate(looms):
@@ -67,14 +74,26 @@ def gen_world(r, res=None, small=False):
     if res is not None:
         res.dist("world:looms=%d" % nl)
         res.dist("world:ranks=" + rank_mode)
-    return {"looms": looms}
+    return {"looms": looms, "ties": rank_mode == "ties"}
 
 
-def expected_rows(world):
+def expected_rows(world, specs=None):
     """Row names demanded by the property: looms by name, or by minimum rank when
     every process of every loom has a rank; processes by rank or pid; threads by
     tid; CPUs by physical id, the virtual CPU last."""
     looms = world["looms"]
+    if specs is not None:
+        # insertion order = first appearance along trace_load's relpath order;
+        # it only matters when sort keys tie (Python's sorted is stable too)
+        seen_l, seen_p = [], []
+        for s in by_relpath(specs):
+            if s["loom"] not in seen_l:
+                seen_l.append(s["loom"])
+            if (s["loom"], s["pid"]) not in seen_p:
+                seen_p.append((s["loom"], s["pid"]))
+        looms = sorted(looms, key=lambda l: seen_l.index(l["name"]) if l["name"] in seen_l else 99)
+        looms = [dict(l, procs=sorted(l["procs"], key=lambda p: seen_p.index((l["name"], p["pid"]))
+                                      if (l["name"], p["pid"]) in seen_p else 99)) for l in looms]
     has = [all(p["rank"] is not None for p in l["procs"]) for l in looms]
     if all(has):
         ordered = sorted(looms, key=lambda l: min(p["rank"] for p in l["procs"]))
@@ -456,11 +475,12 @@ def gen_cases(r, tier, res):
             cases.append(Case(group, "variant:%s/%s" % (ph, ch), specs, order, "ok", world))
         # relpaths renamed: ranks are distinct in generated worlds, so even the
         # names of the directories must not matter
-        specs = variant(r, world, "random", "all")
-        names = r.sample(range(1000), len(specs))
-        for s, nm in zip(specs, names):
-            s["relpath"] = r.choice(["s%03d", "d/%d/e", "loom.q/proc.%d/thread.1"]) % nm
-        cases.append(Case(group, "variant:renamed-relpaths", specs, None, "ok", world))
+        if not world["ties"]:
+            specs = variant(r, world, "random", "all")
+            names = r.sample(range(1000), len(specs))
+            for s, nm in zip(specs, names):
+                s["relpath"] = r.choice(["s%03d", "d/%d/e", "loom.q/proc.%d/thread.1"]) % nm
+            cases.append(Case(group, "variant:renamed-relpaths", specs, None, "ok", world))
         # single contradictions
         kinds = PROPERTY_CONTRADICTIONS + r.sample(OTHER_CONTRADICTIONS, 4 if tier == "quick" else 10)
         for kind in kinds:
@@ -591,7 +611,7 @@ def check(res, tier, replay=None):
                     viol(key, "ovniemu verdict %s, the property demands %s" % (v, c.expect), rep)
                     continue
                 if v == "ok" and c.world is not None:
-                    et, ec = expected_rows(c.world)
+                    et, ec = expected_rows(c.world, c.specs)
                     if out["trows"] != et or out["crows"] != ec or out["tn"] != len(et) or out["cn"] != len(ec):
                         found = True
                         viol("rows-differ-from-spec:" + c.kind,
